@@ -143,7 +143,7 @@ def _decide(ctx, behs, tag):
 
 def _lock_abstraction(ctx):
     """ProviderSessions.tla treats psm.lock critical sections as atomic. PsmLock.tla checks that no goroutine can block
-    forever inside one (writer-preferring RWMutex; UpdateSessionCU after fixes/F22). The probe replays PsmLock's
+    forever inside one (writer-preferring RWMutex; UpdateSessionCU after fixes/F27a). The probe replays PsmLock's
     counter-example of the unfixed code (recursive RLock vs. a writer) on the real manager through the usc_rlocked yield
     point. A real deadlock there is reported as drift of the assumption (never a verdict of C27)."""
     lk = vlib.tlc_mc(ctx, "PsmLock", "PsmLock_mc.cfg", timeout=300)
@@ -160,7 +160,7 @@ def _lock_abstraction(ctx):
     if r.get("deadlock"):
         ctx.drift.append("assumption 'psm.lock critical sections are atomic' does not hold on this tree: UpdateSessionCU takes "
                          "psm.lock.RLock recursively and deadlocks the manager when a writer (UpdateEpoch) arrives in between "
-                         "(harness/cmd/psmdeadlock; specs/PsmLock_nofixF22.cfg; candidate fix fixes/F22_update_session_cu_rlock.patch)")
+                         "(harness/cmd/psmdeadlock; specs/PsmLock_nofixF27a.cfg; candidate fix fixes/F27a_update_session_cu_rlock.patch)")
 
 
 def run(ctx):
@@ -175,7 +175,7 @@ def run(ctx):
 
     _lock_abstraction(ctx)
 
-    sim = vlib.tlc_sim(ctx, "ProviderSessions", "ProviderSessions_sim.cfg", num=ctx.pick(1500, 6000), depth=60,
+    sim = vlib.tlc_sim(ctx, "ProviderSessions", "ProviderSessions_sim.cfg", num=ctx.pick(1000, 6000), depth=60,
                        timeout=ctx.pick(600, 2400))
     behs = [_norm(b) for b in sim["behaviours"]]
     n_sim = len(behs)
